@@ -11,6 +11,8 @@
       it is reached through a link;
     * the search context of a file: `include_dirs[0]` = first of these, `own_dirs` = the rest;
       an include is searched in `[first] ++ own ++ -I directories` (`_find`);
+    * a file is identified by device and inode (`ident`): a symbolic or a hard link to it is the same file;
+      `realpath` (`real`) only decides where its includes are searched;
     * `_process_file`: the base name must stand for one real file (`SameNameError`) and a file is used under one
       base name (`TwoNamesError`: the outputs are named after it); results are
       cached by real path (`None` = in progress = cycle marker); on a cache hit `_same_includes`
@@ -30,10 +32,13 @@ structure Path where
   leaf : String
   deriving DecidableEq, Repr, Inhabited
 
-/-- a directory entry: a regular file (`target = path`) or a symbolic link to a regular file -/
+/-- a directory entry: a regular file (`target = path`) or a symbolic link to a regular file (`target` = what
+    `os.path.realpath` gives).  `ident` stands for (device, inode): the representative path of the file the entry
+    denotes - the target itself, or for a hard link the path the content is filed under (`FS.files`). -/
 structure Entry where
   path : Path
   target : Path
+  ident : Path
   deriving DecidableEq, Repr, Inhabited
 
 /-- what the parser reads in a regular file: the leaves it includes, the names it defines -/
@@ -51,6 +56,10 @@ structure FS where
 /-- `os.path.realpath(path)` of an existing path (`none`: no such entry) -/
 def real (fs : FS) (p : Path) : Option Path :=
   (fs.entries.find? (fun e => e.path == p)).map (·.target)
+
+/-- `_identity(path)`: the file an existing path denotes, whatever link - symbolic or hard - leads to it -/
+def ident (fs : FS) (p : Path) : Option Path :=
+  (fs.entries.find? (fun e => e.path == p)).map (·.ident)
 
 def content (fs : FS) (r : Path) : Option File := fs.files.find? (fun f => f.id == r)
 
@@ -119,7 +128,7 @@ def sameIncludes (fs : FS) (incs : List String) : Nat → State → Path → Pat
         | [] => .ok st
         | (leaf, found) :: rest =>
           let here := find fs leaf (searchDirs fs incs p)
-          if here.bind (real fs) ≠ found then .error (.ambiguous p leaf)
+          if here.bind (ident fs) ≠ found then .error (.ambiguous p leaf)
           else
             match here, found with
             | some h, some f =>
@@ -134,7 +143,7 @@ mutual
   def processFile (fs : FS) (incs : List String) : Nat → State → Path → Except Err (Result × State)
     | 0, _, p => .error (.cyclic p)
     | fuel + 1, st, p =>
-      match real fs p with
+      match ident fs p with
       | none => .error (.notFound p.leaf)
       | some r =>
         -- `if self.names.setdefault(name, abspath) != abspath: raise SameNameError`
@@ -183,7 +192,7 @@ mutual
     | fuel + 1, st, p, r, leaf :: rest =>
       let here := find fs leaf (searchDirs fs incs p)
       -- `self.includes_of[self.including].append((leaf, path and realpath(path)))`
-      let st1 := { st with includesOf := (r, (st.includesOf.lookup r).getD [] ++ [(leaf, here.bind (real fs))]) :: st.includesOf }
+      let st1 := { st with includesOf := (r, (st.includesOf.lookup r).getD [] ++ [(leaf, here.bind (ident fs))]) :: st.includesOf }
       match here with
       | none => .error (.notFound leaf)
       | some g =>
@@ -193,7 +202,7 @@ mutual
           match processIncludes fs incs fuel st2 p r rest with
           | .error e => .error e
           | .ok (vis, parsed, found, shapes, st3) =>
-            .ok (res.exports ++ vis, res.parsed ++ parsed, ((real fs g).toList ++ found), deeper res.shape ++ shapes, st3)
+            .ok (res.exports ++ vis, res.parsed ++ parsed, ((ident fs g).toList ++ found), deeper res.shape ++ shapes, st3)
 end
 
 /-- enough fuel for every run of a file system whose files name each include once: each level of recursion enters a
@@ -222,7 +231,7 @@ def eval (fs : FS) (incs : List String) : Nat → List Path → Path →
     Except Err (List String × List String × List (Nat × Path))
   | 0, _, p => .error (.cyclic p)
   | fuel + 1, anc, p =>
-    match real fs p with
+    match ident fs p with
     | none => .error (.notFound p.leaf)
     | some r =>
       if anc.contains r then .error (.cyclic p)
